@@ -229,6 +229,9 @@ pub fn build_sweep(tier: Tier) -> Vec<IoRun> {
         ] {
             push(&w, t, Pre::Absent, PlanSpec::default(), None, &mut runs);
         }
+        for i in 0..ODD_PATHS.len() {
+            push(&w, Target::Odd(i as u8), Pre::Absent, PlanSpec::default(), None, &mut runs);
+        }
         for l in [Pos::Abs(0), Pos::Abs(1), Pos::Abs(4096), Pos::Permille(500), Pos::LenMinus(1), Pos::LenPlus(0)] {
             push(&w, scratch(), Pre::Absent, PlanSpec::default(), Some(l.clone()), &mut runs);
             push(&w, scratch(), Pre::Longer(17), PlanSpec::default(), Some(l), &mut runs);
